@@ -409,6 +409,14 @@ async fn issue(store: &dyn ObjectStore, r: &Resolved) -> String {
     }
 }
 
+/// The property's own predicate for one read: same bytes / range / size as the
+/// backing store; where the backing store fails, the read fails with the same
+/// kind (modulo the wrapper's re-wrapping); for an object the store does not
+/// have any failure will do (the exact kind is the model comparison's business).
+fn acceptable(got: &str, want: &str) -> bool {
+    strip_wrap(got) == want || (want == "E1" && got.starts_with('E'))
+}
+
 fn strip_wrap(s: &str) -> String {
     if let Some(n) = s.strip_prefix('E').and_then(|n| n.parse::<u32>().ok()) {
         if n >= 100 {
@@ -531,8 +539,9 @@ const STEP_TIMEOUT_MS: u64 = 5_000;
 const DRAIN_MS: u64 = 4_000;
 
 fn check_concurrent(bad: &mut Vec<String>, what: &str, path: &Path, got: &str, want: &str, present_at_arrival: bool) {
-    if strip_wrap(got) != want && !(strip_wrap(got) == "E1" && !present_at_arrival) {
-        bad.push(format!("{}: concurrent read of {:?} returned {} but the backing store answers {}", what, path.to_string(), got, want));
+    if !acceptable(got, want) && !(strip_wrap(got) == "E1" && !present_at_arrival) {
+        let emphasis = if want.starts_with("ok") && !got.starts_with("ok") { " (the read failed although the store holds the object)" } else { "" };
+        bad.push(format!("{}: concurrent read of {:?} returned {} but the backing store answers {}{}", what, path.to_string(), got, want, emphasis));
     }
 }
 
@@ -711,7 +720,7 @@ async fn run_case(cfg: &Config, ops: &[Op]) -> Result<Run, String> {
                         let got = joined.unwrap_or_else(|_| "PANIC".into());
                         let tier = tier_of(&before, &cache.stats(), q.cached_path());
                         let want = issue(raw.as_ref(), &res).await;
-                        if strip_wrap(&got) != want {
+                        if !acceptable(&got, &want) {
                             bad.push(format!("op {} ({}): read of {:?} through the cache returned {} but the backing store answers {}", i, qs, KEYS[q.key() % KEYS.len()], got, want));
                         }
                         arrivals += 1;
@@ -790,6 +799,9 @@ async fn run_case(cfg: &Config, ops: &[Op]) -> Result<Run, String> {
         }
         if !blocked.is_empty() {
             poll_blocked!();
+        }
+        if blocked.len() >= 6 {
+            break; // enough readers are stuck behind others: release everybody and see who comes through
         }
     }
     // drain: every reader still parked is released, every blocked reader gets DRAIN_MS to come through
